@@ -194,6 +194,7 @@ pub struct Counters {
     pub nontrivial: u64,
     pub bytes: u64,
     pub eq_checked: u64,
+    pub eq_not_reflexive: u64,
     pub debug_checked: u64,
     pub debug_skipped: u64,
     pub observations_compared: u64,
@@ -339,7 +340,13 @@ pub fn round_trip<T: Serialize + DeserializeOwned>(o: &mut Out, spec: &Spec<T>, 
 
 #[allow(clippy::too_many_arguments)]
 fn compare<T>(o: &mut Out, spec: &Spec<T>, v: &T, restored: &T, obs0: &Ob, dbg0: Option<&str>, fname: &str, stage: &str) {
-    if let Some(eq) = spec.eq {
+    // PartialEq is only an oracle where it is reflexive on the original (a NaN inside makes
+    // `original == original` false; such values are compared through Debug and observations only)
+    let reflexive = spec.eq.map_or(false, |eq| guarded(|| eq(v, v)).unwrap_or(false));
+    if spec.eq.is_some() && !reflexive {
+        o.cnt.eq_not_reflexive += 1;
+    }
+    if let (Some(eq), true) = (spec.eq, reflexive) {
         o.cnt.eq_checked += 1;
         match guarded(|| eq(restored, v)) {
             Ok(true) => {}
